@@ -569,7 +569,8 @@ public:
     }
     done(g);
   }
-  static std::string splitOf(long b) { static const char* S[] = {",", ",", " ", ";", ":", "=", "(", ", "}; return S[(b >> 2) % 8]; }
+  // delimiter sets, several of them with more than one character (in non-solid mode every character of the set delimits)
+  static std::string splitOf(long b) { static const char* S[] = {",", ",", " ", ";", ":", "=", "(", ", ", ",;", " \t", ",= "}; return S[(b >> 2) % 11]; }
   void rKeyvals(const Op& o) {
     Doc* d = pick(o.a, (o.b & 2) ? K_PFMT : K_KEYVAL, o.b); if (!d) { ctx.outcome("skip"); return; }
     std::string desc; if (!firstLine(*d, 0, o.c, static_cast<uint64_t>(o.d), desc)) { done(1); return; }
@@ -603,10 +604,11 @@ public:
   void rTok(const Op& o) {
     Doc* d = pick(o.a, static_cast<int>(o.d % NKIND), o.b | CROSS); if (!d) { ctx.outcome("skip"); return; }
     std::string desc; if (!firstLine(*d, static_cast<size_t>(o.d), o.c, static_cast<uint64_t>(o.d), desc)) { done(1); return; }
-    bool solid = o.b & 1, allowEmpty = o.b & 2; std::string delims = splitOf(o.b >> 1);
-    size_t n = 0; std::string un;
+    bool solid = o.b & 1, allowEmpty = o.b & 2; std::string delims = (o.b & 256) ? splitOf((o.b >> 9) << 2) : splitOf(o.b >> 1);
+    size_t n = 0; std::string un; std::vector<std::string> toks;
     int g = guard("StringTokenizer", [&] {
       bpp::StringTokenizer st(desc, delims, solid, allowEmpty);
+      toks.assign(st.getTokens().begin(), st.getTokens().end());
       n = st.numberOfRemainingTokens(); if (n != st.getTokens().size()) ctx.fail("invariant:token-count", "invariant:token-count:StringTokenizer", "numberOfRemainingTokens != getTokens().size() on a fresh tokenizer");
       if (n > desc.size() + 1) ctx.fail("invariant:token-count", "invariant:more-tokens-than-bytes:StringTokenizer", "more tokens than input bytes");
       size_t take = n == 0 ? 0 : static_cast<size_t>(o.d) % (n + 1);
@@ -616,9 +618,17 @@ public:
       while (st.hasMoreToken()) st.nextToken();
       if (o.b & 128) st.nextToken();
     });
-    if (cmp && d->pristine() && g == 0 && !(o.b & 64) && !(o.b & 128) && n > 0 && (static_cast<size_t>(o.d) % (n + 1)) == 0 && !solid && allowEmpty && delims.size() == 1) {
-      // whole-string re-join (only when no leading delimiter was skipped): tokens + recorded separators reproduce the input
-      if (desc.find_first_not_of(delims) == 0) rt(un == desc, "tokens", "rejoin", "unparseRemainingTokens gave '" + printable(un) + "' for '" + printable(desc) + "'");
+    if (cmp && d->pristine() && g == 0 && !(o.b & 64) && !(o.b & 128) && n > 0 && !solid && allowEmpty) {
+      // re-join of the remaining tokens with the recorded separators reproduces the (remaining) input. In this mode every delimiter
+      // character of the set is one separator, so token i starts at sum_{j<i}(len(token j) + 1); only when no leading delimiter was skipped.
+      size_t take = static_cast<size_t>(o.d) % (n + 1);
+      if (desc.find_first_not_of(delims) == 0 && take < n) {
+        size_t off = 0; for (size_t i = 0; i < take; ++i) off += toks[i].size() + 1;
+        std::string want = off <= desc.size() ? desc.substr(off) : std::string();
+        rt(un == want, "tokens", take == 0 ? "rejoin" : "rejoin-after-consuming", "after " + std::to_string(take) + " nextToken() calls unparseRemainingTokens gave '" + printable(un) + "' but the remaining input is '" + printable(want) + "'");
+        if (take > 0) ctx.probe("compared:tokens-after-consuming");
+        if (take > 0) { bool differ = false; char first = 0; size_t o2 = 0; for (size_t i = 0; i + 1 < n; ++i) { o2 += toks[i].size(); if (o2 < desc.size()) { if (!first) first = desc[o2]; else if (desc[o2] != first) differ = true; } ++o2; } if (differ) ctx.probe("compared:tokens-after-consuming-mixed-separators"); }
+      }
       ctx.probe("compared:tokens");
     }
     ctx.evi("tokens", static_cast<long>(n)); ctx.ev("un=" + std::to_string(strHash(un)));
